@@ -37,13 +37,16 @@
                                                                  breg h <= that of the forecast and of every
                                                                  admissible constant (so mcb >= 0, dsc >= 0 in R)
 
-   NOT proved (kept as commented full statements in proofs/DecomposeProps.v):
-   - signs for the log loss, for asymmetric homogeneous scores of degree <> 2 and for quantile scores of
-     degree <> 1: the model's recalibrated forecast is the same for every score of the functional, and
-     the judge of harness/run_decompose.py checks the signs (-1e-12 relative) on the implementation for all
-     12 configurations;
-   - discrimination = 0 for constant forecasts with a quantile score (mid-quantile path);
-   - miscalibration = 0 for the OUTPUT of a recalibration (only for fixed points: _partial).
+   ... for EVERY library score (world R, proofs/DecomposeSigns.v, appended at the end of this file):
+   C06_recal_expectile_sign (every degree, every level: asymmetric homogeneous scores), C06_recal_quantile_sign
+   (every degree, every level: quantile scores incl. pinball), C06_recal_logloss_sign (recalibrated values in (0,1));
+   discrimination = 0 for constant forecasts with quantile scores: C06_dsc_zero_if_constant_quantile;
+   miscalibration = 0 for the OUTPUT of a recalibration (idempotence of the recalibration, all functionals):
+   C06_mcb_zero_if_recalibrated.
+
+   NOT proved: log loss when a block of all-0 / all-1 observations is recalibrated to exactly 0 or 1 (the real-valued
+   specification of the log loss does not cover predictions 0 and 1; C04 excludes them too) - judged on the
+   implementation by harness/run_decompose.py.
    Axioms: the sign theorems go through the real-number optimality theorems of C01/C02/C03 and inherit
    ClassicalDedekindReals.sig_forall_dec and functional_extensionality_dep; C06_recal_bregman_sign is a
    world-R theorem (the four permitted axioms); all others are closed. *)
@@ -165,3 +168,203 @@ Theorem C06_recal_bregman_sign : forall (h : R) a x y w r,
     (tlossR (breg h) (combine y wl) r <= tlossR (breg h) (combine y wl) (repeat c (length y)))%R.
 Proof. exact recal_bregman_sign. Qed.
 Print Assumptions C06_recal_bregman_sign.
+
+(* ---- to append to props/C06.v (after the existing theorems) -------------------------------
+   additional import line: *)
+From MD Require Import proofs.ScoreProps proofs.Consistency proofs.DecomposeSigns.
+Open Scope Q_scope.
+
+(* C06 signs, world R, every HomogeneousExpectileScore(degree h, level a), 0 < a < 1, expectile
+   functional, optional positive weights: hes_val h (Q2R a) is the per-observation score
+   (Consistency.hes_val_is_spec / hes_val_is_gen), domZ h its admissible predictions.  The
+   recalibrated values are admissible; their total score is <= that of the forecast (mcb >= 0)
+   and <= that of every admissible constant (dsc >= 0; the marginal is one: C06_marginal_ge_min). *)
+Theorem C06_recal_expectile_sign : forall (h : R) (a : Q) x y w r,
+  0 < a /\ a < 1 ->
+  y <> [] -> length x = length y ->
+  (match w with None => True | Some wl => length wl = length y end) ->
+  all_pos_w w = true ->
+  recalibrate IFexpectile a x y w = DOk r ->
+  domZ h (Q2R (minQ (hd 0 y) (tl y))) ->
+  Forall (fun c => domZ h (Q2R c)) x ->
+  let wl := weights_or_ones (length y) w in
+  Forall (fun q => domZ h (Q2R q)) r /\
+  (tlossR (hes_val h (Q2R a)) (combine y wl) r <= tlossR (hes_val h (Q2R a)) (combine y wl) x)%R /\
+  forall c, domZ h (Q2R c) ->
+    (tlossR (hes_val h (Q2R a)) (combine y wl) r
+     <= tlossR (hes_val h (Q2R a)) (combine y wl) (repeat c (length y)))%R.
+Proof. exact recal_expectile_sign. Qed.
+Print Assumptions C06_recal_expectile_sign.
+
+(* every HomogeneousQuantileScore(degree h, level a) including PinballLoss (h = 1), quantile
+   functional (a successful recalibration has no weights): hqs_val h (Q2R a) is the per-observation
+   score (Consistency.hqs_val_is_spec / hqs_val_is_gen), dQ_h h its admissible values *)
+Theorem C06_recal_quantile_sign : forall (h : R) (a : Q) x y w r,
+  0 < a /\ a < 1 ->
+  y <> [] -> length x = length y ->
+  (match w with None => True | Some wl => length wl = length y end) ->
+  all_pos_w w = true ->
+  recalibrate IFquantile a x y w = DOk r ->
+  dQ_h h (Q2R (minQ (hd 0 y) (tl y))) ->
+  Forall (fun c => dQ_h h (Q2R c)) x ->
+  let wl := weights_or_ones (length y) w in
+  Forall (fun q => dQ_h h (Q2R q)) r /\
+  (tlossR (hqs_val h (Q2R a)) (combine y wl) r <= tlossR (hqs_val h (Q2R a)) (combine y wl) x)%R /\
+  forall c, dQ_h h (Q2R c) ->
+    (tlossR (hqs_val h (Q2R a)) (combine y wl) r
+     <= tlossR (hqs_val h (Q2R a)) (combine y wl) (repeat c (length y)))%R.
+Proof. exact recal_quantile_sign. Qed.
+Print Assumptions C06_recal_quantile_sign.
+
+(* LogLoss, mean functional.  HYPOTHESIS: the recalibrated values are in (0,1) - not implied by
+   "min y admissible": a block of observations that are all 1 (all 0) is recalibrated to 1 (0),
+   where the real-valued specification spec_logloss does not represent the library's value
+   (the library itself has no domain check and returns xlogy(0,0) = 0 for such a row). *)
+Theorem C06_recal_logloss_sign : forall (a : Q) x y w r,
+  y <> [] -> length x = length y ->
+  (match w with None => True | Some wl => length wl = length y end) ->
+  all_pos_w w = true ->
+  recalibrate IFmean a x y w = DOk r ->
+  Forall (fun q => (0 < Q2R q < 1)%R) r ->
+  Forall (fun c => (0 < Q2R c < 1)%R) x ->
+  let wl := weights_or_ones (length y) w in
+  (tlossR spec_logloss (combine y wl) r <= tlossR spec_logloss (combine y wl) x)%R /\
+  forall c, (0 < Q2R c < 1)%R ->
+    (tlossR spec_logloss (combine y wl) r <= tlossR spec_logloss (combine y wl) (repeat c (length y)))%R.
+Proof. exact recal_logloss_sign. Qed.
+Print Assumptions C06_recal_logloss_sign.
+
+(* every recalibrated value and the marginal are >= the smallest observation: "min y admissible"
+   makes them admissible for every score whose admissible predictions are an up-set *)
+Theorem C06_recal_ge_min : forall f a x y w r,
+  length x = length y ->
+  (match w with None => True | Some wl => length wl = length y end) ->
+  recalibrate f a x y w = DOk r ->
+  Forall (fun q => minQ (hd 0 y) (tl y) <= q) r.
+Proof. exact recal_ge_min. Qed.
+Print Assumptions C06_recal_ge_min.
+
+Theorem C06_marginal_ge_min : forall f a y w m,
+  (has_level f = true -> 0 < a /\ a < 1) ->
+  y <> [] -> (match w with None => True | Some wl => length wl = length y end) ->
+  all_pos_w w = true ->
+  marginal f a y (weights_or_ones (length y) w) = Some m ->
+  minQ (hd 0 y) (tl y) <= m.
+Proof. exact marginal_ge_min. Qed.
+Print Assumptions C06_marginal_ge_min.
+
+(* Parts B and D with the model's own marginal as the constant competitor: under "min y admissible"
+   (and admissible forecasts) alone, mcb >= 0 and dsc >= 0 in R *)
+Theorem C06_recal_expectile_sign_marginal : forall (h : R) (a : Q) x y w r m,
+  0 < a /\ a < 1 ->
+  y <> [] -> length x = length y ->
+  (match w with None => True | Some wl => length wl = length y end) ->
+  all_pos_w w = true ->
+  recalibrate IFexpectile a x y w = DOk r ->
+  marginal IFexpectile a y (weights_or_ones (length y) w) = Some m ->
+  domZ h (Q2R (minQ (hd 0 y) (tl y))) ->
+  Forall (fun c => domZ h (Q2R c)) x ->
+  let wl := weights_or_ones (length y) w in
+  domZ h (Q2R m) /\
+  (tlossR (hes_val h (Q2R a)) (combine y wl) r <= tlossR (hes_val h (Q2R a)) (combine y wl) x)%R /\
+  (tlossR (hes_val h (Q2R a)) (combine y wl) r
+   <= tlossR (hes_val h (Q2R a)) (combine y wl) (repeat m (length y)))%R.
+Proof. exact recal_expectile_sign_marginal. Qed.
+Print Assumptions C06_recal_expectile_sign_marginal.
+
+Theorem C06_recal_quantile_sign_marginal : forall (h : R) (a : Q) x y w r m,
+  0 < a /\ a < 1 ->
+  y <> [] -> length x = length y ->
+  (match w with None => True | Some wl => length wl = length y end) ->
+  all_pos_w w = true ->
+  recalibrate IFquantile a x y w = DOk r ->
+  marginal IFquantile a y (weights_or_ones (length y) w) = Some m ->
+  dQ_h h (Q2R (minQ (hd 0 y) (tl y))) ->
+  Forall (fun c => dQ_h h (Q2R c)) x ->
+  let wl := weights_or_ones (length y) w in
+  dQ_h h (Q2R m) /\
+  (tlossR (hqs_val h (Q2R a)) (combine y wl) r <= tlossR (hqs_val h (Q2R a)) (combine y wl) x)%R /\
+  (tlossR (hqs_val h (Q2R a)) (combine y wl) r
+   <= tlossR (hqs_val h (Q2R a)) (combine y wl) (repeat m (length y)))%R.
+Proof. exact recal_quantile_sign_marginal. Qed.
+Print Assumptions C06_recal_quantile_sign_marginal.
+
+(* log loss with all observations strictly inside (0,1): no hypothesis on the recalibrated values *)
+Theorem C06_recal_logloss_sign_interior : forall (a : Q) x y w r lo hi,
+  0 < lo -> hi < 1 -> (forall q, In q y -> lo <= q /\ q <= hi) ->
+  y <> [] -> length x = length y ->
+  (match w with None => True | Some wl => length wl = length y end) ->
+  all_pos_w w = true ->
+  recalibrate IFmean a x y w = DOk r ->
+  Forall (fun c => (0 < Q2R c < 1)%R) x ->
+  let wl := weights_or_ones (length y) w in
+  (tlossR spec_logloss (combine y wl) r <= tlossR spec_logloss (combine y wl) x)%R /\
+  forall c, (0 < Q2R c < 1)%R ->
+    (tlossR spec_logloss (combine y wl) r <= tlossR spec_logloss (combine y wl) (repeat c (length y)))%R.
+Proof. exact recal_logloss_sign_interior. Qed.
+Print Assumptions C06_recal_logloss_sign_interior.
+
+(* discrimination = 0 for a constant forecast column, quantile functional ("quantile", or
+   "median" as its alias), every score that does not distinguish equal rationals *)
+Theorem C06_dsc_zero_if_constant_quantile :
+  forall (vr : variant) (S : Q -> Q -> option Q),
+  (forall y z z', z == z' -> S y z = S y z') ->
+  forall sf_fun sf_level y cols w functional level rows fa a,
+  infer sf_fun sf_level functional level = DOk fa ->
+  alias vr fa = (IFquantile, a) ->
+  allowed S (hd 0 y) (minQ (hd 0 y) (tl y)) = true ->
+  decompose vr S sf_fun sf_level y cols w functional level = DOk rows ->
+  Forall2 (fun x r => (exists c, x = repeat c (length y)) -> dsc r == 0) cols rows.
+Proof. exact decomp_dsc_zero_if_constant_quantile. Qed.
+Print Assumptions C06_dsc_zero_if_constant_quantile.
+
+(* the recalibration is idempotent: x = recalibrate(x0) => recalibrate(x) == x.
+   Quantile functional: exact arithmetic, no axioms (uniqueness of a certified pooling). *)
+Theorem C06_recal_idempotent_quantile : forall a x0 x y w r',
+  0 < a /\ a < 1 -> length x0 = length y ->
+  recalibrate IFquantile a x0 y w = DOk x ->
+  recalibrate IFquantile a x y w = DOk r' ->
+  Forall2 Qeq r' x.
+Proof. exact recal_idempotent_quantile. Qed.
+Print Assumptions C06_recal_idempotent_quantile.
+
+(* every functional (mean and expectile through the real-number uniqueness of the fit) *)
+Theorem C06_recal_idempotent_all : forall f a x0 x y w r',
+  f = IFmean \/ f = IFexpectile \/ (f = IFquantile /\ 0 < a /\ a < 1) ->
+  length x0 = length y ->
+  (match w with None => True | Some wl => length wl = length y end) ->
+  recalibrate f a x0 y w = DOk x ->
+  recalibrate f a x y w = DOk r' ->
+  Forall2 Qeq r' x.
+Proof. exact recal_idempotent_all. Qed.
+Print Assumptions C06_recal_idempotent_all.
+
+(* ... hence miscalibration = 0 for a forecast column that is the OUTPUT of a recalibration
+   (replaces C06_mcb_zero_if_recalibrated_partial as the full clause): mean, expectile, quantile,
+   and "median" as alias of quantile 1/2; every score that does not distinguish equal rationals *)
+Theorem C06_mcb_zero_if_recalibrated : forall (v : variant) (S : Q -> Q -> option Q),
+  (forall y z z', z == z' -> S y z = S y z') ->
+  forall sf_fun sf_level y cols w functional level rows fa f a,
+  infer sf_fun sf_level functional level = DOk fa ->
+  alias v fa = (f, a) ->
+  f = IFmean \/ f = IFexpectile \/ f = IFquantile ->
+  allowed S (hd 0 y) (minQ (hd 0 y) (tl y)) = true ->
+  decompose v S sf_fun sf_level y cols w functional level = DOk rows ->
+  Forall2 (fun x r => (exists x0, length x0 = length y /\ recalibrate f a x0 y w = DOk x) -> mcb r == 0)
+          cols rows.
+Proof. exact decomp_mcb_zero_if_recalibrated. Qed.
+Print Assumptions C06_mcb_zero_if_recalibrated.
+
+(* the quantile functional alone: closed under the global context *)
+Theorem C06_mcb_zero_if_recalibrated_quantile : forall (v : variant) (S : Q -> Q -> option Q),
+  (forall y z z', z == z' -> S y z = S y z') ->
+  forall sf_fun sf_level y cols w functional level rows fa a,
+  infer sf_fun sf_level functional level = DOk fa ->
+  alias v fa = (IFquantile, a) ->
+  allowed S (hd 0 y) (minQ (hd 0 y) (tl y)) = true ->
+  decompose v S sf_fun sf_level y cols w functional level = DOk rows ->
+  Forall2 (fun x r => (exists x0, length x0 = length y /\ recalibrate IFquantile a x0 y w = DOk x) -> mcb r == 0)
+          cols rows.
+Proof. exact decomp_mcb_zero_if_recalibrated_quantile. Qed.
+Print Assumptions C06_mcb_zero_if_recalibrated_quantile.
+
